@@ -158,7 +158,8 @@ def guard_of_value(v):
 def project(path):
     """the projection of a path with the events of diagnostic fields (rules/diag.py) removed"""
     import diag
-    return diag.strip(path.body, project_raw(path))
+    import waitc
+    return waitc.translate(path.body, diag.strip(path.body, project_raw(path)))
 
 
 def project_raw(path):
